@@ -23,6 +23,7 @@ import (
 	_ "verif/harness/c13"
 	_ "verif/harness/c18"
 	_ "verif/harness/c20"
+	_ "verif/harness/litmus"
 )
 
 func init() {
